@@ -146,7 +146,7 @@ class Sess:
         self.mib, self.root = gen_mib(rng, n=knobs.get("mib_n"))
         self.allow_bulk = rng.random() < 0.7
         self.max_rep = rng.choice([1, 2, 5, 20, 50])
-        self.timeout = knobs.get("timeout", 0.3)
+        self.timeout = knobs.get("timeout", 1.0)
         self.drv = None
         v3 = cfg.version == "v3"
         self.st = {"engine_id": self.engine_id if (v3 and cfg.engine_given) else b"", "boots": 0, "time": 0,
@@ -299,7 +299,7 @@ class Sess:
             op = "getnext"
         self.op, self.walk, self.exp, self.step_reqs, self.step_bad = op, None, None, [], []
         self.trimmed, self.want = False, None
-        self.beh = rng.choices(["reply", "drop", "big", "stray"], self.k.get("beh_weights", [75, 3, 10, 12]))[0]
+        self.beh = rng.choices(["reply", "drop", "big", "stray"], self.k.get("beh_weights", [76, 2, 10, 12]))[0]
         self.cap = rng.choice([None, 1, 2, 3, 7])
         keys = self.mib.keys
         args, expect_sent = (), True
@@ -371,7 +371,22 @@ class Sess:
         cfg = self.cfg
         res["calls"] += 1
         res["ops"][self.op] = res["ops"].get(self.op, 0) + 1
-        # count: a call that returned or timed out consumed every expected datagram
+        # A timeout although the agent was not told to drop is a wall-clock effect of a loaded
+        # machine (request or reply delayed beyond the session timeout).  Give the datagram a generous
+        # grace period to arrive, then retire this logical client: the model can no longer know which
+        # reply the client consumed.  Only "nothing was ever sent" remains a verdict.
+        self.desync = False
+        timed_out = out[0] == "exc" and out[1]["cls"] == "TimeoutError"
+        if timed_out and self.beh != "drop" and expect_sent:
+            t_end = time.time() + 3.0
+            while not self.step_reqs and time.time() < t_end:
+                time.sleep(0.01)
+            if self.step_reqs:
+                self.desync = True
+                res["inconclusive"].append("%s %s timed out after %.2fs although the agent was answering (load)" % (
+                    cfg.key(), self.op, self.drv.last_duration))
+        # count: a call that returned consumed every expected datagram; a call that was expected to
+        # send did send
         if self.beh != "drop" and self.exp is not None and out[0] == "ok":
             self.step_bad.append(("count", "call %s returned %s but the next expected datagram (%s) was never sent" % (
                 self.op, repr(out[1])[:80], self.exp), None))
@@ -383,22 +398,14 @@ class Sess:
             self.step_bad.append(("bad_oid", "invalid OID text %r accepted: %s" % (args[0], repr(out)[:120]), None))
         if out[0] == "exc" and driver.classify_exc(out[1]) == "panic":
             self.step_bad.append(("panic", "%s%s raised %s: %s" % (self.op, repr(args)[:80], out[1]["cls"], out[1]["msg"][:160]), None))
-        self.desync = False
-        if self.want is not None and self.beh not in ("drop", "big") and not self.trimmed:
+        if self.want is not None and self.beh not in ("drop", "big") and not self.trimmed and not timed_out:
             w = self.want
             good = (out[0] == "ok" and w[0] == "ok" and out[1] == w[1] and type(out[1]) is type(w[1])) or \
                    (out[0] == "exc" and w[0] == "exc" and out[1]["cls"].endswith(w[1]))
-            if not good and not (out[0] == "exc" and out[1]["cls"] == "TimeoutError"):
+            if not good:
                 self.step_bad.append(("result", "%s%s returned %s, the agent's MIB says %s" % (
                     self.op, repr(args)[:120], repr(out)[:200], repr(w)[:200]), None))
-        if self.beh != "drop" and expect_sent and out[0] == "exc" and out[1]["cls"] == "TimeoutError" and \
-                not any(a == "count" for a, _, _ in self.step_bad) and not self.agent.errors:
-            # the agent answered every datagram, yet the call timed out: scheduling delay on a loaded
-            # machine (wall-clock effect) -> inconclusive, and the model can no longer know which reply
-            # the client consumed: retire this logical client
-            res["inconclusive"].append("%s %s timed out although the agent replied (load?)" % (cfg.key(), self.op))
-            self.desync = True
-        elif self.beh == "reply" and expect_sent and out[0] == "exc" and self.op not in ("bad_oid", "oversize") and \
+        if self.beh == "reply" and expect_sent and out[0] == "exc" and not timed_out and self.op not in ("bad_oid", "oversize") and \
                 not (out[1]["cls"].endswith("NoSuchInstance")):
             self.step_bad.append(("outcome", "%s%s with a compliant agent raised %s: %s" % (
                 self.op, repr(args)[:80], out[1]["cls"], out[1]["msg"][:160]), None))
@@ -409,7 +416,9 @@ class Sess:
                 res["geom"].add((len(u["engine_id"]), len(u["user"]), len(B.int_content(u["boots"])), len(B.int_content(u["time"])),
                                  r.m.get("auth_params_off"), bool(r.m["flags"] & 1), bool(r.m["flags"] & 2)))
             res["sizes"].add(len(r.raw) // 16)
-        for aspect, msg, req in ([] if self.desync else self.step_bad):
+        for aspect, msg, req in self.step_bad:
+            if self.desync and aspect in ("count", "outcome", "result"):
+                continue
             if aspects and aspect not in aspects:
                 res["other_aspects"][aspect] = res["other_aspects"].get(aspect, 0) + 1
                 continue
